@@ -1,5 +1,6 @@
 """C04 — check configuration and MANIFEST entry."""
-CFG = {
+CFG = {'scale_variants': False,
+ 
     "count": {"quick": 10000, "thorough": 400000},
     "lean_files": ["GeoModel/BoolGlue.lean", "GeoModel/BoolSpec.lean", "GeoModel/Ops/C04.lean", "GeoModel/Winding.lean",
                    "GeoModel/RelateSpec.lean", "GeoModel/Valid.lean", "GeoModel/Area.lean",
